@@ -362,7 +362,9 @@ def process_hier(cfgs: List[Dict[str, Any]]) -> Dict[str, Any]:
             continue
         try:
             db = og.load(hl.build_docs(cfg))
-        except OdxError:
+        except Exception as ex:  # noqa: BLE001
+            fails.append(("version_does_not_load", {"machine": "Layers", "types": cfg["types"], "parents": cfg["parents"], "defs": cfg["defs"],
+                                                    "ni": cfg["ni"], "cps": cfg["cps"], "exc": f"{type(ex).__name__}: {str(ex)[:100]}"}))
             continue
         st["hierarchies"] += 1
         n = len(cfg["types"])
@@ -376,7 +378,9 @@ def process_hier(cfgs: List[Dict[str, Any]]) -> Dict[str, Any]:
             esd = cfg["types"][i - 1] == "ECU-SHARED-DATA"
             visible = sum(1 for (_n, with_ni, _w) in cfg["view"][i - 1] if with_ni != 0)
             ncp = 0 if esd else sum(1 for (_k, own) in (cfg["eff"][i - 1] or []) if own != 0)
-            want = [f"L{i}", cfg["types"][i - 1], str(visible), str(visible), str(ncp)]
+            # the name that is a service in odd layers and a job in even ones counts where the visible definition is a service
+            nsvc = visible + sum(1 for (_n, with_ni, _w) in cfg["view"][i - 1] if with_ni % 2)
+            want = [f"L{i}", cfg["types"][i - 1], str(nsvc), str(visible), str(ncp)]
             st["hier_rows"] += 1
             st["inherited_counted"] += visible > len(cfg["defs"][i - 1])
             st["comparams_counted"] += ncp > 0
